@@ -60,7 +60,7 @@ fn close_body(p: &CloseParams) {
     let _guard = LogFileGuard(if kind == Kind::MultiMmapLog { Some(name.clone()) } else { None });
     let key = |oracle: &str| format!("close_conc/{}/{}", kind.name(), oracle);
     let ch: ChanArc = Arc::new(chan::make::<Tracked>(kind, p.buffer, p.max_streams, &name));
-    let shared = Arc::new(HLock::new(Shared { events: vec![], producers_active: p.producers.len() }));
+    let shared = Arc::new(HLock::new(Shared { events: vec![], drops: vec![], producers_active: p.producers.len() }));
     let mut streams = vec![];
     for _ in 0..p.streams {
         streams.push(ch.create_stream());
